@@ -390,6 +390,12 @@ fn tamper_run(ctx: &Ctx, out: &mut Outcome, run_seed: u64, r: &mut Rng) {
         return;
     }
     accepted!(matches!(srv.process(u_addr, &req_u), SResult::Send { .. }), "request");
+    // 1b. the same request as a RETRY: the address is now half-open with this very token; a modified
+    // copy of the request must still be rejected (nothing may be taken on trust from the first one)
+    if !tamper_all(ctx, out, run_seed, "request-retry", &req_u, &mut End::Srv(&mut srv, u_addr), None) {
+        return;
+    }
+    accepted!(matches!(srv.process(u_addr, &req_u), SResult::Send { .. }), "request (retry)");
 
     // 2. challenge -> requesting client A
     let a_addr = client_addr(r, 901);
